@@ -3,7 +3,7 @@ import StepupModel.P.Report
 import StepupModel.P.Pending
 /-! Driver requests of C19 (`c19 <op> ...`).
 
-* `c19 rc <threshold> <draining> <missingTargets> <missingDirs> <globWarnings> <globErrors> <steps>`
+* `c19 rc <threshold> <draining> <missingTargets> <missingDirs> <globWarnings> <globErrors> [<invalidTargets>] <steps>`
   with steps `STATE:NEED:detached,...`: `finalize.report_unbuilt` -> `<number> <messages>`.
 * `c19 serve <invalid> <number-free flags f w p d>`: `director.serve`'s exit status.
 * `c19 pend <steps> <fileBlock> <dead> <producers> <unsafeAnc> <resBlock> <fileRoots> <resRoots>`:
@@ -95,14 +95,17 @@ def pendAnswer (b : Base) (fileRoots resRoots : List Nat) : String :=
       s!"inputs={displayStr (rankDisplay b rows rootFile fileRoots)} " ++
       s!"res={displayStr (rankDisplay b rows rootResource resRoots)}"
 
+def handleRc (thr dr mt md gw ge it steps : String) : Option String := do
+  let rows ← (items steps).mapM parseRow
+  let inp : Input := { steps := rows, threshold := ← parseNeed thr, draining := ← parseBool dr,
+                       missingTargets := ← mt.toNat?, missingDirs := ← md.toNat?,
+                       globWarnings := ← gw.toNat?, globErrors := ← ge.toNat?, invalidTargets := ← it.toNat? }
+  let (f, msgs) := reportUnbuilt inp
+  pure s!"{f.toNat} {if msgs.isEmpty then "-" else ",".intercalate (msgs.map Msg.str)}"
+
 def handle : List String → Option String
-  | ["rc", thr, dr, mt, md, gw, ge, steps] => do
-    let rows ← (items steps).mapM parseRow
-    let inp : Input := { steps := rows, threshold := ← parseNeed thr, draining := ← parseBool dr,
-                         missingTargets := ← mt.toNat?, missingDirs := ← md.toNat?,
-                         globWarnings := ← gw.toNat?, globErrors := ← ge.toNat? }
-    let (f, msgs) := reportUnbuilt inp
-    pure s!"{f.toNat} {if msgs.isEmpty then "-" else ",".intercalate (msgs.map Msg.str)}"
+  | ["rc", thr, dr, mt, md, gw, ge, steps] => handleRc thr dr mt md gw ge "0" steps
+  | ["rc", thr, dr, mt, md, gw, ge, it, steps] => handleRc thr dr mt md gw ge it steps
   | ["serve", inv, f, w, p, d] => do
     let fl : Flags := { failed := ← parseBool f, warning := ← parseBool w, pending := ← parseBool p,
                         drained := ← parseBool d }
